@@ -326,7 +326,7 @@ func specFrameOK(data []byte) bool {
 // what it OBSERVED. zzCalls("x") is the number of times the call performed operation x.
 // ====================================================================================================
 
-func zzCalls(name string) int     { panic("spec only") }
+func zzCalls(name string) int    { panic("spec only") }
 func zzRet[T any](name string) T { panic("spec only") }
 
 //@ func (*connection).IsSelected
